@@ -120,14 +120,7 @@ func (tm *TypeMap) SortOf(t types.Type) *Sort {
 	case *types.Interface, *types.Signature, *types.Chan:
 		s = SInt
 	case *types.Slice:
-		es := tm.SortOf(tt.Elem())
-		name := "Slice_" + sanitize(es.Name)
-		ds, fresh := tm.c.Sorts.Data(name)
-		if fresh {
-			ds.Fields = []DField{{"arr", tm.c.Sorts.Array(SInt, es), name + "_arr"}, {"len", SInt, name + "_len"}}
-		}
-		tm.goOf[ds] = t
-		s = ds
+		s = tm.RawSliceSort(tt)
 	case *types.Array:
 		s = tm.c.Sorts.Array(SInt, tm.SortOf(tt.Elem()))
 	case *types.Struct:
@@ -172,6 +165,21 @@ func (tm *TypeMap) SortOf(t types.Type) *Sort {
 	}
 	tm.cache[key] = s
 	return s
+}
+
+// RawSliceSort is the concrete (arr,len) representation of a slice type, regardless of any abstract
+// sort the (named) slice type is mapped to.
+func (tm *TypeMap) RawSliceSort(tt *types.Slice) *Sort {
+	es := tm.SortOf(tt.Elem())
+	name := "Slice_" + sanitize(es.Name)
+	ds, fresh := tm.c.Sorts.Data(name)
+	if fresh {
+		ds.Fields = []DField{{"arr", tm.c.Sorts.Array(SInt, es), name + "_arr"}, {"len", SInt, name + "_len"}}
+	}
+	if _, ok := tm.goOf[ds]; !ok {
+		tm.goOf[ds] = tt
+	}
+	return ds
 }
 
 func hashStr(s string) uint32 {
